@@ -330,3 +330,82 @@ def sccs(nodes, succ):
                         break
                 out.append(comp)
     return out
+
+
+def reachable_assuming(fn, call_value=None, start=0, max_states=20000, place_value=None, avoid=()):
+    """Path-sensitive reachability with boolean constant propagation (P9b).
+
+    `place_value(place)` gives the assumed value of a projected place read (e.g. a config field);
+    blocks in `avoid` are not entered.
+    `call_value(block, term)` returns True/False/"nz" (a non-zero integer)/None for the result of
+    the call terminating `block`.  Starting at `start`, every feasible path is explored while
+    tracking the value of projection-free bool/int temporaries that are determined by the
+    assumptions (constants, copies, `!x`, `x == 0`, `x != 0`, `x > 0`, and the assumed call
+    results).  A switch on a known local follows only the matching edge.  Returns the set of
+    blocks reachable under the assumptions (an over-approximation of the feasible ones).
+    Locals are dropped from the environment when re-assigned an unknown value, so loops converge."""
+    def val(env, op):
+        if op[0] == "k":
+            return op[2] if isinstance(op[2], (bool, int)) else None
+        if op[0] in ("c", "m") and not op[1][1]:
+            return env.get(op[1][0])
+        if op[0] in ("c", "m") and place_value is not None:
+            return place_value(op[1])
+        return None
+    avoid = set(avoid)
+    seen = set()
+    reach = set()
+    work = [(start, ())]
+    while work and len(seen) < max_states:
+        b, envt = work.pop()
+        if (b, envt) in seen or b in avoid:
+            continue
+        seen.add((b, envt))
+        reach.add(b)
+        env = dict(envt)
+        for st in fn.blocks[b][0]:
+            pl, rv = st[1], st[2]
+            if pl[1]:
+                continue
+            v = None
+            if rv[0] == "use":
+                v = val(env, rv[1])
+            elif rv[0] == "un" and rv[1] == "Not":
+                x = val(env, rv[2])
+                if isinstance(x, bool):
+                    v = not x
+            elif rv[0] == "bin" and rv[1] in ("Eq", "Ne", "Gt", "Lt", "Ge", "Le"):
+                x, y = val(env, rv[2]), val(env, rv[3])
+                if x == "nz" and y == 0 and not isinstance(y, bool):
+                    v = {"Eq": False, "Ne": True, "Gt": True, "Ge": True, "Lt": False, "Le": False}[rv[1]]
+                elif y == "nz" and x == 0 and not isinstance(x, bool):
+                    v = {"Eq": False, "Ne": True, "Lt": True, "Le": True, "Gt": False, "Ge": False}[rv[1]]
+            if v is None:
+                env.pop(pl[0], None)
+            else:
+                env[pl[0]] = v
+        t = fn.blocks[b][1]
+        if t[0] == "call":
+            d = t[3]
+            if d and not d[1]:
+                v = call_value(b, t) if call_value is not None else None
+                if v is None:
+                    env.pop(d[0], None)
+                else:
+                    env[d[0]] = v
+        nxt = succs(fn, b)
+        if t[0] == "sw":
+            v = val(env, t[1])
+            if isinstance(v, bool) or (isinstance(v, int)):
+                cv = int(v)
+                tgt = None
+                for sv, tb in t[2]:
+                    if sv == cv:
+                        tgt = tb
+                nxt = [(tgt if tgt is not None else t[3], None)]
+            elif v == "nz":
+                nxt = [(tb, None) for sv, tb in t[2] if sv != 0] + [(t[3], None)]
+        e2 = tuple(sorted(env.items(), key=lambda kv: kv[0]))
+        for s, _ in nxt:
+            work.append((s, e2))
+    return reach
